@@ -86,7 +86,7 @@ func mutations(s *corpus.Schema, t corpus.TypeExpr, v *Value, emit func(*Value, 
 		if len(v.Elems) > 0 {
 			emit(with(func(c *Value) { c.Elems = c.Elems[:len(c.Elems)-1] }), "array-drop-last", false)
 		}
-		if len(v.Elems) > 1 && !Equal(v.Elems[0], v.Elems[1]) {
+		if len(v.Elems) > 1 && !Equal(plusZero(v.Elems[0]), plusZero(v.Elems[1])) { // -0 and +0 are equal values: swapping them changes nothing
 			emit(with(func(c *Value) { c.Elems[0], c.Elems[1] = c.Elems[1], c.Elems[0] }), "array-swap", false)
 		}
 		for i, e := range v.Elems {
@@ -100,8 +100,8 @@ func mutations(s *corpus.Schema, t corpus.TypeExpr, v *Value, emit func(*Value, 
 		if _, taken := v.Entries["~extra"]; !taken {
 			emit(with(func(c *Value) { c.Entries["~extra"] = Simplest(s, valT, 0) }), "map-add-key", false)
 		}
-		for k, e := range v.Entries {
-			k := k
+		for _, k := range keysOf(v.Entries) { // sorted: the case list must not depend on Go's map iteration order
+			k, e := k, v.Entries[k]
 			emit(with(func(c *Value) { delete(c.Entries, k) }), "map-drop-key", false)
 			if _, taken := v.Entries[k+"~"]; !taken {
 				emit(with(func(c *Value) { c.Entries[k+"~"] = c.Entries[k]; delete(c.Entries, k) }), "map-rename-key", false)
@@ -169,6 +169,32 @@ func mutations(s *corpus.Schema, t corpus.TypeExpr, v *Value, emit func(*Value, 
 			}, depth+1)
 		}
 	}
+}
+
+// plusZero returns a copy of v in which every -0 is +0.
+func plusZero(v *Value) *Value {
+	c := Clone(v)
+	var walk func(x *Value)
+	walk = func(x *Value) {
+		if x == nil {
+			return
+		}
+		if (x.Kind == KFloat32 || x.Kind == KFloat64) && x.F == 0 {
+			x.F = 0
+		}
+		for _, e := range x.Elems {
+			walk(e)
+		}
+		for _, e := range x.Entries {
+			walk(e)
+		}
+		for _, e := range x.Fields {
+			walk(e)
+		}
+		walk(x.Member)
+	}
+	walk(c)
+	return c
 }
 
 func negZeroFlip(f float64) float64 {
